@@ -12,7 +12,7 @@ import (
 
 func genC02() *rapid.Generator[Case] {
 	return rapid.Custom(func(t *rapid.T) Case {
-		c := Case{Cfg: genConfig([]int{2}, []int64{120, 200, 333}).Draw(t, "cfg")}
+		c := Case{Cfg: genConfig([]int{2}, []int64{120, 200, 333, 1024}).Draw(t, "cfg")}
 		bucket := rapid.SampledFrom([]string{"b", "bk", "c"}).Draw(t, "bucket")
 		buckets := []string{bucket}
 		shape := genKeyShape(t, keyAlphabet, 2, 7, 3, 4, false)
@@ -20,6 +20,10 @@ func genC02() *rapid.Generator[Case] {
 		maxSteps := 25
 		if shape.Kind == "bulk" {
 			maxSteps = 10
+		}
+		if c.Cfg.Seg >= 1024 {
+			// a sealed segment then holds more than 8 transactions: its on-disk transaction-id tree has inner nodes
+			maxSteps = 60
 		}
 		n := rapid.IntRange(1, maxSteps).Draw(t, "nsteps")
 		for i := 0; i < n; i++ {
